@@ -401,7 +401,7 @@ pub fn prove_base(ctx: &mut Ctx, b: &Base, salt: u32, nforeign: usize, rng: &mut
                 }
             }
             if !(dup && short == "err dup") {
-                ctx.oracle_fail(
+                crate::ofail(ctx, 
                     &format!("prover-fails:{}:{}", short, shape_class(b)),
                     "multi_open does not produce a proof for a duplicate-free query set",
                     json!({"shape": shape_of(b), "result": e, "line": line}),
@@ -414,7 +414,7 @@ pub fn prove_base(ctx: &mut Ctx, b: &Base, salt: u32, nforeign: usize, rng: &mut
                 Some(p) => p,
                 None => {
                     ctx.case(&kind, true, &line, "unparsable-proof");
-                    ctx.oracle_fail(&format!("prover-garbage:{}", shape_class(b)), "multi_open wrote a proof that does not parse", json!({"shape": shape_of(b)}));
+                    crate::ofail(ctx, &format!("prover-garbage:{}", shape_class(b)), "multi_open wrote a proof that does not parse", json!({"shape": shape_of(b)}));
                     return None;
                 }
             };
@@ -428,7 +428,7 @@ pub fn prove_base(ctx: &mut Ctx, b: &Base, salt: u32, nforeign: usize, rng: &mut
             let mut dlogs: Vec<Fq> = built.ppolys.iter().map(|p| eval_polynomial(p, b.s)).collect();
             for (i, (c, d)) in coms.iter().zip(dlogs.iter()).enumerate() {
                 if *c != G1Projective::generator() * d {
-                    ctx.oracle_fail(&format!("commit:{}", shape_class(b)), "commit(p) != [p(s)]G", json!({"shape": shape_of(b), "poly": i}));
+                    crate::ofail(ctx, &format!("commit:{}", shape_class(b)), "commit(p) != [p(s)]G", json!({"shape": shape_of(b), "poly": i}));
                 }
             }
             for _ in 0..nforeign {
@@ -617,7 +617,7 @@ pub fn verify_case(ctx: &mut Ctx, b: &Base, p: &Proved, vqs: &[VQ], t: &Tamper, 
     let detail = || json!({"shape": shape_of(b), "corruption": what, "tamper": t.fmt(), "queries": fmt_vqs(vqs), "k": b.k, "result": out.ans, "panic": out.panicked, "prove_salt": p.salt});
     if honest {
         if !out.accepted {
-            ctx.oracle_fail(
+            crate::ofail(ctx, 
                 &format!("honest-rejected:{}:{}", verdict, shape_class(b)),
                 "the multi-opening proof produced for the true evaluations does not verify",
                 detail(),
@@ -626,7 +626,7 @@ pub fn verify_case(ctx: &mut Ctx, b: &Base, p: &Proved, vqs: &[VQ], t: &Tamper, 
     } else if out.accepted {
         let proof_altered = !matches!(t, Tamper::None | Tamper::Extra);
         if !all_true || proof_altered {
-            ctx.oracle_fail(
+            crate::ofail(ctx, 
                 &format!("forgery-accepted:{}:{}", what, shape_class(b)),
                 "verification succeeds although a claimed evaluation / point / commitment is wrong or the proof was altered",
                 detail(),
@@ -637,7 +637,7 @@ pub fn verify_case(ctx: &mut Ctx, b: &Base, p: &Proved, vqs: &[VQ], t: &Tamper, 
             ctx.count(&format!("accepted-true-claims:{what}"));
         }
     } else if out.panicked.is_some() {
-        ctx.oracle_fail(&format!("verifier-panics:{}:{}", what, shape_class(b)), "multi_prepare panics instead of returning a verdict", detail());
+        crate::ofail(ctx, &format!("verifier-panics:{}:{}", what, shape_class(b)), "multi_prepare panics instead of returning a verdict", detail());
     }
     out
 }
